@@ -77,17 +77,48 @@ func vGetID(m pcommon.Map) uint64 {
 	return 0
 }
 
+// A Resource / Scope identity is spread over EVERY field of the message (attributes, dropped-attributes count, for a
+// scope also name and version): a copy that forgets one of them reads back as a different identity.
+func vPutRes(r pcommon.Resource, id uint64) {
+	r.Attributes().PutInt("id", int64(id))
+	r.Attributes().PutStr("host", vTag("h", id))
+	r.SetDroppedAttributesCount(uint32(id + 10))
+}
+
+func vResID(r pcommon.Resource) uint64 {
+	id := vGetID(r.Attributes())
+	h, _ := r.Attributes().Get("host")
+	if r.Attributes().Len() != 2 || vUntag("h", h.Str()) != id || r.DroppedAttributesCount() != uint32(id+10) {
+		return 999996
+	}
+	return id
+}
+
+func vPutScope(sc pcommon.InstrumentationScope, id uint64) {
+	sc.Attributes().PutInt("id", int64(id))
+	sc.SetName(vTag("scope", id))
+	sc.SetVersion(vTag("v", id))
+	sc.SetDroppedAttributesCount(uint32(id + 20))
+}
+
+func vScopeID(sc pcommon.InstrumentationScope) uint64 {
+	id := vGetID(sc.Attributes())
+	if sc.Attributes().Len() != 1 || vUntag("scope", sc.Name()) != id || vUntag("v", sc.Version()) != id || sc.DroppedAttributesCount() != uint32(id+20) {
+		return 999997
+	}
+	return id
+}
+
 // ---- builders ------------------------------------------------------------------------------------
 func vBuildLogs(p []vRes3) plog.Logs {
 	ld := plog.NewLogs()
 	for _, r := range p {
 		rl := ld.ResourceLogs().AppendEmpty()
-		rl.Resource().Attributes().PutInt("id", int64(r.c.id))
+		vPutRes(rl.Resource(), r.c.id)
 		rl.SetSchemaUrl(vTag(vURL, r.c.url))
 		for _, s := range r.scopes {
 			sl := rl.ScopeLogs().AppendEmpty()
-			sl.Scope().Attributes().PutInt("id", int64(s.c.id))
-			sl.Scope().SetName(vTag("scope", s.c.id))
+			vPutScope(sl.Scope(), s.c.id)
 			sl.SetSchemaUrl(vTag(vURL, s.c.url))
 			for _, it := range s.items {
 				lr := sl.LogRecords().AppendEmpty()
@@ -103,12 +134,11 @@ func vBuildTraces(p []vRes3) ptrace.Traces {
 	td := ptrace.NewTraces()
 	for _, r := range p {
 		rs := td.ResourceSpans().AppendEmpty()
-		rs.Resource().Attributes().PutInt("id", int64(r.c.id))
+		vPutRes(rs.Resource(), r.c.id)
 		rs.SetSchemaUrl(vTag(vURL, r.c.url))
 		for _, s := range r.scopes {
 			ss := rs.ScopeSpans().AppendEmpty()
-			ss.Scope().Attributes().PutInt("id", int64(s.c.id))
-			ss.Scope().SetName(vTag("scope", s.c.id))
+			vPutScope(ss.Scope(), s.c.id)
 			ss.SetSchemaUrl(vTag(vURL, s.c.url))
 			for _, it := range s.items {
 				sp := ss.Spans().AppendEmpty()
@@ -124,12 +154,11 @@ func vBuildMetrics(p []vRes4) pmetric.Metrics {
 	md := pmetric.NewMetrics()
 	for _, r := range p {
 		rm := md.ResourceMetrics().AppendEmpty()
-		rm.Resource().Attributes().PutInt("id", int64(r.c.id))
+		vPutRes(rm.Resource(), r.c.id)
 		rm.SetSchemaUrl(vTag(vURL, r.c.url))
 		for _, s := range r.scopes {
 			sm := rm.ScopeMetrics().AppendEmpty()
-			sm.Scope().Attributes().PutInt("id", int64(s.c.id))
-			sm.Scope().SetName(vTag("scope", s.c.id))
+			vPutScope(sm.Scope(), s.c.id)
 			sm.SetSchemaUrl(vTag(vURL, s.c.url))
 			for _, m := range s.ms {
 				mm := sm.Metrics().AppendEmpty()
@@ -191,13 +220,10 @@ func vReadLogs(ld plog.Logs) []vRes3 {
 	var out []vRes3
 	for i := 0; i < ld.ResourceLogs().Len(); i++ {
 		rl := ld.ResourceLogs().At(i)
-		r := vRes3{c: vCtx{vGetID(rl.Resource().Attributes()), vUntag(vURL, rl.SchemaUrl())}}
+		r := vRes3{c: vCtx{vResID(rl.Resource()), vUntag(vURL, rl.SchemaUrl())}}
 		for j := 0; j < rl.ScopeLogs().Len(); j++ {
 			sl := rl.ScopeLogs().At(j)
-			s := vScope3{c: vCtx{vGetID(sl.Scope().Attributes()), vUntag(vURL, sl.SchemaUrl())}}
-			if vUntag("scope", sl.Scope().Name()) != s.c.id {
-				s.c.id = 999997
-			}
+			s := vScope3{c: vCtx{vScopeID(sl.Scope()), vUntag(vURL, sl.SchemaUrl())}}
 			for k := 0; k < sl.LogRecords().Len(); k++ {
 				s.items = append(s.items, vGetID(sl.LogRecords().At(k).Attributes()))
 			}
@@ -212,13 +238,10 @@ func vReadTraces(td ptrace.Traces) []vRes3 {
 	var out []vRes3
 	for i := 0; i < td.ResourceSpans().Len(); i++ {
 		rs := td.ResourceSpans().At(i)
-		r := vRes3{c: vCtx{vGetID(rs.Resource().Attributes()), vUntag(vURL, rs.SchemaUrl())}}
+		r := vRes3{c: vCtx{vResID(rs.Resource()), vUntag(vURL, rs.SchemaUrl())}}
 		for j := 0; j < rs.ScopeSpans().Len(); j++ {
 			ss := rs.ScopeSpans().At(j)
-			s := vScope3{c: vCtx{vGetID(ss.Scope().Attributes()), vUntag(vURL, ss.SchemaUrl())}}
-			if vUntag("scope", ss.Scope().Name()) != s.c.id {
-				s.c.id = 999997
-			}
+			s := vScope3{c: vCtx{vScopeID(ss.Scope()), vUntag(vURL, ss.SchemaUrl())}}
 			for k := 0; k < ss.Spans().Len(); k++ {
 				s.items = append(s.items, vGetID(ss.Spans().At(k).Attributes()))
 			}
@@ -233,13 +256,10 @@ func vReadMetrics(md pmetric.Metrics) []vRes4 {
 	var out []vRes4
 	for i := 0; i < md.ResourceMetrics().Len(); i++ {
 		rm := md.ResourceMetrics().At(i)
-		r := vRes4{c: vCtx{vGetID(rm.Resource().Attributes()), vUntag(vURL, rm.SchemaUrl())}}
+		r := vRes4{c: vCtx{vResID(rm.Resource()), vUntag(vURL, rm.SchemaUrl())}}
 		for j := 0; j < rm.ScopeMetrics().Len(); j++ {
 			sm := rm.ScopeMetrics().At(j)
-			s := vScope4{c: vCtx{vGetID(sm.Scope().Attributes()), vUntag(vURL, sm.SchemaUrl())}}
-			if vUntag("scope", sm.Scope().Name()) != s.c.id {
-				s.c.id = 999997
-			}
+			s := vScope4{c: vCtx{vScopeID(sm.Scope()), vUntag(vURL, sm.SchemaUrl())}}
 			for k := 0; k < sm.Metrics().Len(); k++ {
 				mm := sm.Metrics().At(k)
 				m := vMetric{name: vUntag("m", mm.Name()), desc: vUntag("d", mm.Description()), unit: vUntag("u", mm.Unit())}
@@ -432,6 +452,10 @@ func (g *vGen) metric(n int) vMetric {
 	m.kind = 1 + g.r.Intn(5)
 	if g.r.Intn(12) == 0 {
 		m.kind = 0
+	}
+	// failing-input search: the driver names a metric type on which a translated function and the model differ
+	if f := vEnvInt("VERIF_C17_FOCUS_KIND", -1); f >= 0 && f <= 5 && g.r.Intn(10) < 8 {
+		m.kind = f
 	}
 	switch m.kind {
 	case 2:
